@@ -5,6 +5,10 @@ HERE = os.path.dirname(os.path.dirname(os.path.abspath(__file__)))
 
 # id -> (technique, level text, level note, design section)
 CHECKS = {
+ "C16": ("exhaustive enumeration of file-tree splittings (every contiguous run of children of every node moved to include files: single, nested, sibling, nested+sibling) x directory x name syntax x separator, executed against real files on tmpfs with a lockstep against the flattened text; fault trees in a child process",
+         "For a 4-element module, a 3-module project and two IF_DATA-bearing modules: every contiguous run of children of every node moved into an include file, optionally with a nested include, a sibling include or both, x directory of the file {., sub/, sub/sub2/} x directory of the nested file {., inner/} x quoted / bare names x '/' and '\\' separators; the A2ML block including part of its definition; fault cases (missing, a directory, empty, no name, self-inclusion, mutual inclusion, A2ML self-inclusion) in a child process with a timeout. Oracle: load(main) equals load_from_string(flattened) including the number of diagnostics; write next to the tree and reload gives an equal model with one /include per directly included file; merge_includes() gives include-free text that reloads equal; faults return an error naming the include in a live process.",
+         "the working directory is an empty directory so that no name resolves by accident; absolute include paths and symlinks are not explored",
+         "DESIGN.md 5/C16"),
  "C17": ("lockstep of load(file) against load_from_string(decoded text) over the enumerated space documents x 10 encodings x length residues, plus invalid-Unicode variants and an exhaustive 4-byte-prefix sweep",
          "Every carrier document that holds a string (thorough: also every optional-slot document) with 2-, 3- and 4-byte characters, U+FFFD and a UTF-8 look-alike of Latin-1 text in a string, a block comment and a line comment x UTF-8, UTF-16LE/BE, UTF-32LE/BE each with and without BOM x trailing padding 0..3; three ways of making the UTF-8 file invalid Unicode, which must behave like the Latin-1 reading of the whole file; every 4-byte prefix over the 9 encoding-relevant byte values in front of a body in five encodings (no panic).",
          "first character of the text is ASCII (format requirement); diagnostics are compared by number and variant because they embed the file name",
